@@ -282,6 +282,7 @@ pub fn exec_op(sim: &Sim, op: &Op, in_cb: bool) {
             let Some(tok) = sim.st.borrow().srcs.get(id).and_then(|s| s.token) else { return };
             let before = h.verif_stats();
             let was_inserted = sim.st.borrow().srcs.get(id).map(|s| s.inserted).unwrap_or(false);
+            let enabled_before = sim.st.borrow().srcs.get(id).map(|s| s.enabled).unwrap_or(false);
             let own = in_own_processing(sim, *id);
             if guarded(sim, "remove", || h.remove(tok)).is_none() {
                 return;
@@ -305,6 +306,17 @@ pub fn exec_op(sim: &Sim, op: &Op, in_cb: bool) {
                 }
                 if let K::Timer(t) = &mut s.k {
                     t.armed = false;
+                }
+                let was_enabled = enabled_before;
+                if let K::Trans(t) = &mut s.k {
+                    if !own {
+                        crate::transient::parent_registration(t, 2);
+                    }
+                    if !was_enabled {
+                        // remove() of a disabled source unregisters it a second time: the
+                        // parent's calls do not alternate, C18's proviso does not hold
+                        s.indeterminate = true;
+                    }
                 }
                 let k = s.reg_key;
                 if let Some(k) = k {
@@ -331,6 +343,10 @@ pub fn exec_op(sim: &Sim, op: &Op, in_cb: bool) {
             let Some(h) = handle(sim) else { return };
             let Some((tok, inserted, enabled, indet)) = sim.st.borrow().srcs.get(id).and_then(|s| s.token.map(|t| (t, s.inserted, s.enabled, s.indeterminate))) else { return };
             let own = in_own_processing(sim, *id);
+            // C18's proviso: the parent's own register and unregister calls alternate
+            if inserted && !enabled && matches!(sim.st.borrow().srcs.get(id).map(|s| &s.k), Some(K::Trans(_))) {
+                return;
+            }
             let Some(r) = guarded(sim, "disable", || h.disable(&tok)) else { return };
             let fault = std::mem::replace(&mut sim.hk.borrow_mut().fault_window, false);
             if !inserted {
@@ -366,6 +382,10 @@ pub fn exec_op(sim: &Sim, op: &Op, in_cb: bool) {
                         }
                         sim.probe("disable_failed");
                     } else {
+                        crate::transient::check(sim, *id, "failed_op");
+                        if sim.is_dead() {
+                            return;
+                        }
                         sim.violate("op.unexpected_result", vec!["disable".into()], format!("disable() of live enabled source {} failed: {}", id, e));
                     }
                 }
@@ -402,6 +422,10 @@ pub fn exec_op(sim: &Sim, op: &Op, in_cb: bool) {
                         sim.st.borrow_mut().srcs.get_mut(id).unwrap().indeterminate = true;
                         sim.probe("enable_failed");
                     } else {
+                        crate::transient::check(sim, *id, "failed_op");
+                        if sim.is_dead() {
+                            return;
+                        }
                         sim.violate("op.unexpected_result", vec!["enable".into()], format!("enable() of disabled source {} failed: {}", id, e));
                     }
                 }
@@ -449,6 +473,10 @@ pub fn exec_op(sim: &Sim, op: &Op, in_cb: bool) {
                         sim.st.borrow_mut().srcs.get_mut(id).unwrap().indeterminate = true;
                         sim.probe("update_failed");
                     } else {
+                        crate::transient::check(sim, *id, "failed_op");
+                        if sim.is_dead() {
+                            return;
+                        }
                         sim.violate("op.unexpected_result", vec!["update".into()], format!("update() of live source {} failed: {}", id, e));
                     }
                 }
@@ -552,6 +580,10 @@ pub fn exec_op(sim: &Sim, op: &Op, in_cb: bool) {
             drop(b);
         }
         Op::PeerWrite(id, n) => {
+            if matches!(sim.st.borrow().srcs.get(id).map(|s| &s.k), Some(K::Trans(_))) {
+                crate::transient::peer_write(sim, *id, *n);
+                return;
+            }
             let mut st = sim.st.borrow_mut();
             let Some(s) = st.srcs.get_mut(id) else { return };
             let K::Generic(g) = &mut s.k else { return };
@@ -1043,6 +1075,7 @@ pub fn drop_kept(sim: &Sim, id: Id) {
         s.kept = false;
         match &mut s.k {
             K::Timer(t) => t.disp.take().map(|d| Box::new(d) as Box<dyn std::any::Any>),
+            K::Trans(t) => t.disp.take().map(|d| Box::new(d) as Box<dyn std::any::Any>),
             K::Generic(g) => {
                 if !s.inserted {
                     g.released = true;
@@ -1053,6 +1086,34 @@ pub fn drop_kept(sim: &Sim, id: Id) {
         }
     };
     let _ = catch_unwind(AssertUnwindSafe(move || drop(d)));
+}
+
+/// Environment events stand for things other threads / peers do while the loop sleeps: only
+/// operations on thread-safe handles and on peer fds qualify, never LoopHandle operations.
+pub fn env_allowed(op: &Op) -> bool {
+    matches!(
+        op,
+        Op::Ping(_)
+            | Op::ClonePing(_)
+            | Op::DropPing(_)
+            | Op::Send(_)
+            | Op::CloneSender(_)
+            | Op::DropSender(_)
+            | Op::PeerWrite(..)
+            | Op::PeerRead(..)
+            | Op::FillOut(_)
+            | Op::PeerClose(_)
+            | Op::Wake(_)
+            | Op::StreamPush(_)
+            | Op::StreamEnd(_)
+            | Op::Wakeup
+            | Op::AdapterPeerWrite(..)
+            | Op::AdapterPeerRead(..)
+            | Op::AdapterPeerClose(_)
+            | Op::PingChild(..)
+            | Op::PeerWriteChild(..)
+            | Op::Raise(_)
+    )
 }
 
 /// Execute the environment events that are due at the current virtual time.
@@ -1066,6 +1127,9 @@ pub fn run_due_env(sim: &Sim) {
             }
         };
         let Some(ev) = ev else { break };
+        if !env_allowed(&ev.op) {
+            continue;
+        }
         sim.probe("env_fired");
         sim.trace(|| format!("  env@{} {:?}", ev.at, ev.op));
         exec_op(sim, &ev.op, false);
